@@ -43,7 +43,7 @@ def main():
         print(f"MACHINERY FAILURE [{pid}]: {e}", file=sys.stderr)
         return 2
     except Exception:  # noqa: BLE001
-        traceback.print_exc()
+        print(traceback.format_exc()[-3000:], file=sys.stderr)
         print(f"MACHINERY FAILURE [{pid}]: unexpected exception", file=sys.stderr)
         return 2
 
